@@ -18,13 +18,13 @@ pub struct Runners {
 }
 
 fn sim<T: Deserr<SimErr> + ToModel>(d: Doc) -> Result<MVal, SimErr> {
-    deserr::deserialize::<T, _, SimErr>(SimValue(d)).map(|v| v.to_model())
+    deserr::deserialize::<T, _, SimErr>(SimValue::root(d)).map(|v| v.to_model())
 }
 fn json_src<T: Deserr<SimErr> + ToModel>(d: serde_json::Value) -> Result<MVal, SimErr> {
     deserr::deserialize::<T, _, SimErr>(d).map(|v| v.to_model())
 }
 fn jsonerr<T: Deserr<JsonError> + ToModel>(d: Doc) -> Result<MVal, String> {
-    deserr::deserialize::<T, _, JsonError>(SimValue(d))
+    deserr::deserialize::<T, _, JsonError>(SimValue::root(d))
         .map(|v| v.to_model())
         .map_err(|e| e.to_string())
 }
@@ -34,7 +34,7 @@ fn jsonerr_json_src<T: Deserr<JsonError> + ToModel>(d: serde_json::Value) -> Res
         .map_err(|e| e.to_string())
 }
 fn qperr<T: Deserr<QueryParamError> + ToModel>(d: Doc) -> Result<MVal, String> {
-    deserr::deserialize::<T, _, QueryParamError>(SimValue(d))
+    deserr::deserialize::<T, _, QueryParamError>(SimValue::root(d))
         .map(|v| v.to_model())
         .map_err(|e| e.to_string())
 }
